@@ -154,6 +154,9 @@ def _big(run, pl, n):
             run.case(["big-piece", kind], True, sample=case, classes=["big-piece"])
 
 
+from harness.common import translated_tie as common_translated_tie  # noqa: E402
+
+
 def run(tier, seed, replay=None):
     run = Run("C02", tier, seed, RULE)
     drv = Driver()
@@ -182,4 +185,5 @@ def run(tier, seed, replay=None):
     settle_model(run, drv)
     big_piece(run)
     scaled_sweep(run, drv, tier)
+    common_translated_tie(run, ["next_power_2", "merkle_root"])
     return run.finish()
